@@ -13,6 +13,7 @@ import (
 	"path/filepath"
 	"strings"
 	"sync"
+	"sync/atomic"
 	"testing"
 	"time"
 
@@ -1090,4 +1091,51 @@ func TestRegressC19Presets(t *testing.T) {
 			}
 		}
 	}
+}
+
+// Registration is atomic: of several goroutines registering the same new scheme at the same moment (in different
+// spellings - schemes are matched case-insensitively) exactly one succeeds, and the factory that was accepted is
+// the one that opens sinks of that scheme afterwards.
+func TestRegressC19ConcurrentRegister(t *testing.T) {
+	c19Mu.Lock()
+	defer c19Mu.Unlock()
+	const workers = 8
+	for trial := 0; trial < 400; trial++ {
+		scheme := fmt.Sprintf("vcr%dx%d", os.Getpid(), trial)
+		var done sync.WaitGroup
+		var ready atomic.Int32 // spin barrier: the goroutines enter RegisterSink within nanoseconds of each other
+		errs := make([]error, workers)
+		for g := 0; g < workers; g++ {
+			done.Add(1)
+			go func(g int) {
+				defer done.Done()
+				name := scheme
+				if g%2 == 1 {
+					name = strings.ToUpper(scheme)
+				}
+				ready.Add(1)
+				for ready.Load() < workers {
+				}
+				errs[g] = zap.RegisterSink(name, func(*url.URL) (zap.Sink, error) {
+					return nil, fmt.Errorf("factory-of-goroutine-%d", g)
+				})
+			}(g)
+		}
+		done.Wait()
+		winner, ok := -1, 0
+		for g, e := range errs {
+			if e == nil {
+				ok++
+				winner = g
+			}
+		}
+		if ok != 1 {
+			t.Fatalf("trial %d: %d of %d concurrent registrations of scheme %q succeeded, want exactly 1", trial, ok, workers, scheme)
+		}
+		_, _, err := zap.Open(scheme + "://x")
+		if err == nil || !strings.Contains(err.Error(), fmt.Sprintf("factory-of-goroutine-%d", winner)) {
+			t.Fatalf("trial %d: the registration of goroutine %d was accepted, but opening the scheme reports %v", trial, winner, err)
+		}
+	}
+	statCase("C19", true, "concurrent-register", "concurrent registration of one scheme")
 }
